@@ -151,7 +151,7 @@ def step (st : St) (tok : String) : St × String :=
     | some p => opResult st (rmCached st.w p)
     | none => (st, "bad-arg")
   | ["addall"] => opResult st (stageAll st.w)
-  | ["clearidx"] => ({ st with w := { st.w with index := [] } }, "ok")
+  | ["clearidx"] => ({ st with w := clearIndex st.w }, "ok")
   | ["switch", name] =>
     match st.trees.lookup name with
     | some t =>
